@@ -49,8 +49,8 @@ class EnergyTarget:
         )
 
         # === Thermal Targeting ===
-        self._hot_pinch = 0.0
-        self._cold_pinch = 0.0
+        self._hot_pinch = None
+        self._cold_pinch = None
         self._heat_recovery_target = 0.0
         self._heat_recovery_limit = 0.0
         self._hot_utility_target = 0.0
